@@ -4,6 +4,8 @@ import scipy.linalg
 
 from vmon import gen, instr
 
+from vmon.scale import S
+
 ID = 'C12'
 RULE = ('cases = Hermitian PSD targets (full or low rank) and positive definite noise PSDs (condition number up to 1e6, D 2..8, any '
         'leading axes): the Rayleigh quotient of get_gev_vector (use_eig False/True) equals the largest generalised eigenvalue '
@@ -19,7 +21,7 @@ LEADS = [[], [1], [4], [2, 3], [2, 1, 2]]
 
 def plan(tier, seed):
     rng = np.random.default_rng([seed, 112])
-    n = 90 if tier == 'quick' else 900
+    n = S(tier, 90, 900)
     cases, i = [], 0
     for lane in ('gev', 'pca', 'rank1', 'ban'):
         for r in range(n):
@@ -151,9 +153,12 @@ def run_rank1(case, R):
     P = psd_target(rng, D, lead, case['rank']) if not exact else np.einsum('...a,...b->...ab', a, a.conj()) * 10 ** rng.uniform(-2, 2)
     Pn = gen.hpd(rng, D, cond=min(case['cond'], 1e4), lead=lead)
     info = dict(D=D, lead=list(lead), exact_rank_one=exact)
-    for which in ('pca', 'gev'):
+    for which in ('pca', 'pca:trace', 'pca:eigenvalue', 'gev', 'gev:use_eig'):
         try:
-            Q = bw.get_pca_rank_one_estimate(P) if which == 'pca' else bw.get_gev_rank_one_estimate(P, Pn)
+            if which.startswith('pca'):
+                Q = bw.get_pca_rank_one_estimate(P, **({'scaling': which.split(':')[1]} if ':' in which else {}))
+            else:
+                Q = bw.get_gev_rank_one_estimate(P, Pn, **({'use_eig': True} if ':' in which else {}))
         except Exception as e:
             R.fail('C12.rank1', f'rank1/raised/{which}', f'{type(e).__name__}: {str(e)[:100]}', **info)
             continue
